@@ -1,5 +1,76 @@
-(* C18 — interim *)
-From Verif Require Import Base GenDelta Render.
+(* C18 — rendered report, diff and findings show exactly the stored numbers.
+   Statements only; proofs in Report/RenderProofs{Num,}.v about the cell
+   formatters re-translated from LanguageTotalsDelta / ScanTotalsDelta /
+   ScanTotals on every run (Gen/GenDelta.v) and the overview model
+   Report/Render.v; the findings part is Agg/CheckFlow.v (shared with C02). *)
+From Verif Require Import Base BaseProofs GenDelta Render RenderProofsNum RenderProofs GenThresholds Thresholds CheckFlow.
+From Coq Require Import Permutation Sorted.
 Open Scope Z_scope.
-Example C18_ex : ov_rows (overview_text [mkLT [80] 1 10 2 0 0] (Some [mkLT [80] 1 7 2 0 0])) = [[[80]; [49]; [50]; [49;48;32;40;43;51;41]; [48]; [48]]].
+
+(* a cell is "cur" or "cur (+d)": its leading integer is the stored figure; the annotation is present
+   exactly when current and previous differ and its value is current - previous *)
+Theorem C18_cell_number : forall c d, leading_int (cell c d) = Some c.
+Proof. exact cell_number. Qed.
+Theorem C18_delta_iff : forall c p,
+  ((exists a, cell c (c - p) = fmt_n c ++ [32; 40] ++ a ++ [41]) <-> c <> p) /\
+  (forall a, cell c (c - p) = fmt_n c ++ [32; 40] ++ a ++ [41] -> signed_int a = Some (c - p)) /\
+  (c = p -> cell c (c - p) = fmt_n c).
+Proof. exact cell_diff_annotated. Qed.
+
+(* every row: language, then files, functions, lines of code, hard, unmaintainable of that language —
+   plain without comparison, as delta cells against the PREVIOUS report's totals of the same language *)
+Theorem C18_rows : forall cur prev, Forall2 (row_spec prev) (sort_desc lt_loc cur) (ov_rows (overview_text cur prev)).
+Proof. exact C18_rows_all. Qed.
+
+(* totals row iff more than one language; sums (and their deltas) of the stored figures *)
+Theorem C18_totals : forall cur prev,
+  (ov_totals (overview_text cur prev) = None <-> (length cur <= 1)%nat) /\
+  ((1 < length cur)%nat ->
+   ov_totals (overview_text cur prev) =
+   Some (match prev with
+         | None => [fmt_n (sumZ (map lt_files cur)); fmt_n (sumZ (map lt_functions cur)); fmt_n (sumZ (map lt_loc cur));
+                    fmt_n (sumZ (map lt_hard_to_maintain cur)); fmt_n (sumZ (map lt_unmaintainable cur))]
+         | Some pv => [cell (sumZ (map lt_files cur)) (sumZ (map lt_files cur) - sumZ (map lt_files pv));
+                       cell (sumZ (map lt_functions cur)) (sumZ (map lt_functions cur) - sumZ (map lt_functions pv));
+                       cell (sumZ (map lt_loc cur)) (sumZ (map lt_loc cur) - sumZ (map lt_loc pv));
+                       cell (sumZ (map lt_hard_to_maintain cur)) (sumZ (map lt_hard_to_maintain cur) - sumZ (map lt_hard_to_maintain pv));
+                       cell (sumZ (map lt_unmaintainable cur)) (sumZ (map lt_unmaintainable cur) - sumZ (map lt_unmaintainable pv))]
+         end)).
+Proof. exact RenderProofs.C18_totals. Qed.
+
+(* languages ordered by lines of code (descending, ties in stored order); both formats show the same cells *)
+Theorem C18_order : forall cur prev, let shown := sort_desc lt_loc cur in
+  map row_language (ov_rows (overview_text cur prev)) = map lt_language shown /\
+  length (ov_rows (overview_text cur prev)) = length cur /\
+  Permutation shown cur /\
+  Permutation (map lt_language shown) (map lt_language cur) /\
+  StronglySorted (fun a b => lt_loc a >= lt_loc b) shown /\
+  (forall k, filter (fun a => lt_loc a =? k) shown = filter (fun a => lt_loc a =? k) cur).
+Proof. exact RenderProofs.C18_order. Qed.
+Theorem C18_formats_agree : forall cur prev, overview_text cur prev = overview_md cur prev.
+Proof. exact RenderProofs.C18_formats_agree. Qed.
+
+(* findings: exactly the functions longer than 30 lines, longest first, at most ten unless full, with
+   the exact number of omitted rows — both formats *)
+Theorem C18_findings : forall full files,
+  findings_view full files = findings_view_md full files /\
+  let all := sort_desc (fun u => m_value (ru_measurement u))
+               (filter (fun u => m_value (ru_measurement u) >? 30) (units_of files)) in
+  let n := Z.of_nat (length all) in
+  findings_view full files =
+  if (negb full && (10 <? n))%bool then (firstn 10 all, Some (n - 10)) else (all, None).
+Proof. intros full files. exact (conj (findings_formats_agree full files) (findings_view_spec full files)). Qed.
+
+Print Assumptions C18_cell_number.
+Print Assumptions C18_delta_iff.
+Print Assumptions C18_rows.
+Print Assumptions C18_totals.
+Print Assumptions C18_order.
+Print Assumptions C18_formats_agree.
+Print Assumptions C18_findings.
+
+Example C18_example :
+  ov_rows (overview_text [mkLT [80] 3 120 9 1 0; mkLT [67] 1 400 2 0 1] (Some [mkLT [67] 1 400 3 0 0; mkLT [80] 2 100 9 1 0]))
+  = [[[67]; [49]; [50;32;40;45;49;41]; [52;48;48]; [48]; [49;32;40;43;49;41]];
+     [[80]; [51;32;40;43;49;41]; [57]; [49;50;48;32;40;43;50;48;41]; [49]; [48]]].
 Proof. vm_compute. reflexivity. Qed.
